@@ -13,7 +13,7 @@ for d in sorted(glob.glob("/verif/seeded/%s*/" % prefix)):
     try:
         dst = os.path.join(scratch, "repo")
         shutil.copytree("/repo/src", os.path.join(dst, "src"), ignore=shutil.ignore_patterns("__pycache__", "*.egg-info"))
-        p = subprocess.run(["git", "apply", "--whitespace=nowarn", d + "patch.diff"], cwd=dst, capture_output=True, text=True)
+        p = subprocess.run(["git", "apply", "--whitespace=nowarn", "--include=src/*", d + "patch.diff"], cwd=dst, capture_output=True, text=True)
         if p.returncode:
             print(name, "PATCH-DOES-NOT-APPLY", flush=True)
             continue
